@@ -304,6 +304,7 @@ func init() {
 		"constructs the shipped grammar rejects are not generated (compact record constructors, varargs record components, local enums, annotated `new @A T()`, `Outer.super::m`)",
 		"the domain is the shipped grammar (the property's quantifier): keyword modifiers in front of interface members are sentences of it although javac rejects them in a later phase; sentences only the shipped grammar accepts and no Java parser does (`implements int`, `new int()`) are not generated",
 		"a fatal error (stack overflow) is detected by the driver through the case journal",
+		"serialisable is judged with encoding/json, except that a model of the identifier or full pass which, written out, holds more than 2 000 000 entries (types, functions, calls, fields, parameters, annotations, imports; the entries of InnerStructures lists counted wherever they are repeated) is reported as not serialisable without calling json.Marshal: Marshal of such a model ends the process with `fatal error: out of memory`, which can be neither replayed quickly nor shrunk (finding full-pass-model-doubles-with-each-nested-class: 2^n type entries for n member classes of one class, gigabytes of JSON for a file of a few hundred bytes); with the repair the models of all generated units stay below 100 000 entries (measured on 17 000 units), so the limit judges no honest model",
 		"a file that begins with a byte order mark is not generated: the shipped lexer reads U+FEFF as an identifier letter and the shipped parser rejects the file",
 		"where the unit is placed only decides which files the passes read (the Java passes skip test files and read *.java only); the oracle is the same at every place: no panic, serialisable results, the ordinary files keep their entries",
 		"the CLI options added to the spellings (--count, --sort, --remove, --aggregate, --ext, --identify=true) do not change what is observed here (exit status, crash-free output, reports are JSON and hold the ordinary files); todo --git and analysis --identify=false are not used (they read a git history / an identify.json of an earlier run)")
